@@ -2,5 +2,5 @@ SPECIFICATION Spec
 CONSTANTS
   Family = "@@FAMILY@@"
   Emit = TRUE
-INVARIANTS JsonRoundTrip SerRoundTrip ShapeLaw TokenCount
+INVARIANTS EncodersWellFormed NoProperPrefixAccepted JsonRoundTrip SerRoundTrip ShapeLaw TokenCount KeysStayDistinct
 CHECK_DEADLOCK FALSE
